@@ -32,6 +32,11 @@ def latex_error(err, pos, latex, parms):
     sys.stderr.write('*** LaTeX error: line ' + str(lin)
                         + ', column ' + str(col) + ':\n*** ' + err + '\n')
     sys.stderr.flush()
+    return latex_error_mark(err, pos, latex, parms)
+
+#   the error mark for the plain text, without the message on stderr
+#
+def latex_error_mark(err, pos, latex, parms):
     mark = ' ' + parms.mark_latex_error + ' '
     if parms.mark_latex_error_verbose:
         mark += '(' + err + ') '
